@@ -24,7 +24,8 @@ CONSTANTS Shapes,        \* set of energy shapes
           Ranks,         \* tensor ranks
           Kernels,       \* set of smoother kernels (<<>> = VoidSmoother)
           MaxAdds,       \* number of add() calls in a behaviour
-          MaxSets        \* number of set_smoother() calls in a behaviour
+          MaxSets,       \* number of set_smoother() calls in a behaviour
+          MaxMut         \* number of add() + set_smoother() calls in a behaviour
 
 VARIABLES shape, rank, smo, smo0, data, b, pc, ax, tmp, cache, obs, log
 svars == <<shape, rank, smo, smo0, data, b, pc, ax, tmp, cache, obs, log>>      \* smo0: the smoothers the result was built with
@@ -77,13 +78,13 @@ LoopEnd == /\ pc = "loop" /\ ax = 0
            /\ cache' = <<tmp>> /\ obs' = <<tmp>> /\ pc' = "idle" /\ tmp' = <<>> /\ log' = Append(log, "read")
            /\ UNCHANGED <<shape, rank, smo, smo0, data, b, ax>> /\ UNCHANGED vars
 (* r.add(other) : self.data += other.data *)
-AddInPlaceData == /\ pc = "idle" /\ Adds < MaxAdds
+AddInPlaceData == /\ pc = "idle" /\ Adds < MaxAdds /\ Adds + Sets < MaxMut
                   /\ data' = [p \in 1..Len(data) |-> data[p] + b[p]]
                   /\ cache' = IF "stalecache" \in Wrong THEN cache ELSE <<>>
                   /\ obs' = <<>> /\ log' = Append(log, "add")
                   /\ UNCHANGED <<shape, rank, smo, smo0, b, pc, ax, tmp>> /\ UNCHANGED vars
 (* r.set_smoother(AltSmo) *)
-SetSmoother == /\ pc = "idle" /\ Sets < MaxSets
+SetSmoother == /\ pc = "idle" /\ Sets < MaxSets /\ Adds + Sets < MaxMut
                /\ smo' = AltSmo
                /\ cache' = IF "stalesmoother" \in Wrong THEN cache ELSE <<>>
                /\ obs' = <<>> /\ log' = Append(log, "set")
